@@ -376,6 +376,15 @@ OBLIGATIONS += [
          bounds="11 versions (W + 1), consecutive blocks from an arbitrary base, all values", instantiation="BlockHistoryCacheData<u8>"),
 ]
 
+OBLIGATIONS += [
+    dict(id="X1", engine="smt", module="tables", func="run", harness="smt/tables.py:run", props=["C01", "C03", "C04"],
+         tiers={"quick": dict(cap=120), "thorough": dict(cap=120)},
+         what="every versioned / block-keyed table of Brc20ProgDatabase is passed to reorg by reorg(), to commit by commit_changes() and to clear_cache by clear_caches() (structural: read from the MIR; the solver query is propositional)",
+         bounds="all table-typed fields of the struct as they appear in the compiled MIR (15 on the pinned tree)",
+         instantiation="MIR of Brc20ProgDatabase::{reorg, commit_changes, clear_caches} -> propositional SMT, z3 + cvc5",
+         outside="that the called method does the right thing per table (T4-T8, B3, B4 decide that for the table types); the global-values table"),
+]
+
 # properties whose check is registered in MANIFEST.json in this revision
 ACTIVE = ["C01", "C02", "C03", "C04", "C05", "C09", "C11", "C13", "C14", "C15", "C16", "C18"]
 
